@@ -69,6 +69,12 @@ fn pick_speed(rng: &mut Rng, f1: usize) -> f64 {
             (f1 as f64 / k).clamp(0.1, 50.0)
         }
         2 => *rng.pick(&[0.1, 0.25, 0.5, 2.0, 4.0, 10.0, 50.0, 1.4, 1.2]),
+        // a speed barely different from 1: the target differs from F1 by only 1..3 frames
+        3 => {
+            let j = rng.range(1, 3) as f64;
+            let f = f1.max(8) as f64;
+            if rng.chance(0.5) { f / (f + j) } else { f / (f - j) }
+        }
         _ => rng.log_uniform(0.1, 50.0),
     }
 }
@@ -87,7 +93,7 @@ pub fn gen_c08(seed: u64, thorough: bool) {
                 0 => rng.range(1, 4),
                 1 => rng.range(5, 30),
                 2 => rng.range(31, 200),
-                _ => rng.range(1, 200),
+                _ => rng.range(1, 600),
             };
             random_params(&mut rng, n)
         };
